@@ -80,3 +80,7 @@ contract(TR + "query_ast_visitor.get_rep", props=["C01", "C09"],
          defaults=dict(retain_scope="False"),
          ensures=[("has_rep", "result != None and live(result) and field(node, 'rep') == result"),
                   ("retain_scope", "implies(retain_scope, seq_eq(cursor(self), old(cursor(self))))")] + CVC_ENSURES)
+
+
+# loop invariants for loops whose body re-enters the translator: the CVC clauses relative to the function's pre-state
+CVC_LOOP_INV = [("L." + lab, ex) for lab, ex in CVC_ENSURES] + [("L.gc", "gc_of(self) == old(gc_of(self)) and live(gc_of(self))")]
